@@ -92,6 +92,15 @@ def generate(ctx, rng):
         if rng.random() < 0.3:
             c["stage_faults"] = {str(rng.randrange(3)): [rng.choice(FAULTS + [None]) for _ in range(rng.randint(1, 3))]}
         yield ("rnd", j), c
+    # several lookups in flight on ONE cloud object, the server listing every registered entry in each answer
+    for j in range(60 if quick else 3000):
+        yield ("concurrent-tokens", j), {"kind": "concurrent-tokens", "n": rng.randint(2, 5), "cred": _cred(rng), "cseed": rng.getrandbits(32),
+                                         "latency": rng.choice([0.0, 0.1, 0.5])}
+    # several V3 devices discovered in one run (authenticated concurrently through one shared cloud object)
+    for j in range(25 if quick else 1200):
+        nd = rng.randint(2, 4)
+        yield ("e2e-multi", j), {"kind": "e2e-multi", "ids": [rng.getrandbits(48) | 1 for _ in range(nd)],
+                                 "endians": [rng.choice(["little", "big"]) for _ in range(nd)], "cred": _cred(rng), "cseed": rng.getrandbits(32)}
     # device ids whose udpid (in the byte order the device is registered under) starts with one or two zero bytes
     zero_ids = _leading_zero_ids()
     for j, (did, endian, nz) in enumerate(zero_ids):
@@ -143,6 +152,10 @@ def run_case(ctx, case):
         return _e2e(ctx, case)
     if case["kind"] == "e2e-connect":
         return _e2e_connect(ctx, case)
+    if case["kind"] == "concurrent-tokens":
+        return _concurrent_tokens(ctx, case)
+    if case["kind"] == "e2e-multi":
+        return _e2e_multi(ctx, case)
     r = random.Random(case["lseed"])
     u = case["udpid"]
     match = {"udpId": u, "token": "%0128x" % r.getrandbits(512), "key": "%064x" % r.getrandbits(256)}
@@ -392,3 +405,93 @@ def _e2e_connect(ctx, case):
                 ctx.violation("e2e-not-authenticated-after-cloud-recovered", f"device {ip} connected while the cloud was healthy (after an earlier fault): {what}, "
                               f"token set={d.token is not None}, online={d.online}", case, {"outcomes": [o[:2] + (o[3],) for o in outcomes]})
     ctx.count(k, kind="bad" if bad else "e2e-authenticated", sample={"faults": case["faults"], "outcomes": [o[:2] for o in outcomes]})
+
+
+def _concurrent_tokens(ctx, case):
+    import asyncio
+    r = random.Random(case["cseed"])
+    acct, pw = case["cred"]
+    model = cloudsrv.CloudModel({acct: pw})
+    model.list_all = True
+    ids = ["%032x" % r.getrandbits(128) for _ in range(case["n"])]
+    for u in ids + ["%032x" % r.getrandbits(128) for _ in range(2)]:
+        model.registry[u] = ("%0128x" % r.getrandbits(512), "%064x" % r.getrandbits(256))
+    if case["latency"]:
+        orig = model.handle
+
+        async def slow_handler(request):
+            await asyncio.sleep(case["latency"])
+            return orig(request)
+
+        def factory(*a, **kw):
+            import httpx
+            return httpx.AsyncClient(transport=httpx.MockTransport(slow_handler))
+    else:
+        factory = model.client_factory()
+
+    async def go(loop):
+        cloud = NetHomePlusCloud("US", account=acct, password=pw, get_async_client=factory)
+        await cloud.login()
+        return await asyncio.gather(*[cloud.get_token(u) for u in ids], return_exceptions=True)
+
+    k = ("concurrent-tokens", case["cseed"], case["n"], case["latency"])
+    try:
+        res, loop = H.run_virtual(go, None)
+    except Exception as e:  # noqa: BLE001
+        ctx.count(k, kind="bad")
+        ctx.violation(f"non-cloud-error/{type(e).__name__}", f"{type(e).__name__}: {e} in concurrent token lookups", case)
+        return
+    bad = False
+    for v in model.violations[:3]:
+        bad = True
+        ctx.violation(f"wire-contract/{v.split(':')[-1].strip().split(' ')[0]}", f"model server: {v}", case)
+    for u, got in zip(ids, res):
+        if isinstance(got, BaseException):
+            bad = True
+            ctx.violation("valid-flow-failed", f"concurrent lookup of {u} failed: {type(got).__name__}: {got}", case)
+        elif tuple(got) != model.registry[u]:
+            bad = True
+            whose = [kk for kk, vv in model.registry.items() if vv == tuple(got)]
+            ctx.violation("foreign-credentials-returned", f"concurrent lookup of {u} returned the credentials of {whose or 'nobody'}", case)
+    ctx.count(k, kind="bad" if bad else "token-returned-correct", sample={"concurrent_lookups": case["n"], "latency": case["latency"]})
+
+
+def _e2e_multi(ctx, case):
+    r = random.Random(case["cseed"])
+    acct, pw = case["cred"]
+    model = cloudsrv.CloudModel({acct: pw})
+    model.invent_unknown = True
+    model.list_all = True
+    net = H.new_net()
+    devs = []
+    for i, (did, endian) in enumerate(zip(case["ids"], case["endians"])):
+        ip = f"10.19.2.{10 + i}"
+        token, key = r.randbytes(64), r.randbytes(32)
+        model.registry[cloudsrv.udpid(did, endian)] = (token.hex(), key.hex())
+        devs.append((ip, did, token, key, SimDevice(net, host=ip, port=6444, version=3, token=token, key=key, device_id=did,
+                                                    ac=ACModel({"target_temperature": 19.5}))))
+        SimHost(net, ip, 6445, [(0.05 + 0.001 * i, None, D.build_reply(3, did, D.build_payload(ip, 6444, b"3" * 32, b"net_ac_%04X" % i)))])
+
+    async def go(loop):
+        return await Discover.discover(auto_connect=True, account=acct, password=pw, get_async_client=model.client_factory())
+
+    k = ("e2e-multi", tuple(case["ids"]), tuple(case["endians"]))
+    try:
+        found, loop = H.run_virtual(go, net)
+    except Exception as e:  # noqa: BLE001
+        ctx.count(k, kind="bad")
+        ctx.violation(f"e2e-raises/{type(e).__name__}", f"{type(e).__name__}: {e}", case, {"wire": model.violations[:3]})
+        return
+    by_ip = {d.ip: d for d in found}
+    bad = False
+    for v in model.violations[:3]:
+        bad = True
+        ctx.violation(f"wire-contract/{v.split(':')[-1].strip().split(' ')[0]}", f"model server: {v}", case)
+    for ip, did, token, key, sim in devs:
+        d = by_ip.get(ip)
+        if d is None or (d.token, d.key) != (token.hex(), key.hex()) or not d.online:
+            bad = True
+            ctx.violation("e2e-not-authenticated/multi", f"device {ip} (one of {len(devs)} V3 devices discovered together) ended with "
+                          f"{'no device' if d is None else ('own creds' if (d.token, d.key) == (token.hex(), key.hex()) else 'foreign or no creds')}, "
+                          f"online={getattr(d, 'online', None)}", case)
+    ctx.count(k, kind="bad" if bad else "e2e-authenticated", sample={"devices": len(devs), "endians": case["endians"]})
